@@ -130,8 +130,31 @@ func (lc *lenCtx) base(v ssa.Value) lenRange {
 	case *ssa.Convert:
 		// string(bytes) / []byte(string) keep the length
 		return lc.base(x.X)
+	case *ssa.Parameter:
+		// parameter of a single-site helper: what is known about the argument where it is called
+		if arg := inlineArg(x); arg != nil {
+			if cs := singleSite(curProgram, x.Parent()); cs != nil {
+				return refineByFacts(arg, lc.base(arg), cs.Block())
+			}
+		}
 	}
 	return lenRange{0, lenInf}
+}
+
+// liftBlock: the block of fn in which b executes — b itself, or the block of the call through
+// which the single-site helper containing b is (transitively) entered.
+func liftBlock(b *ssa.BasicBlock, fn *ssa.Function) *ssa.BasicBlock {
+	for k := 0; k < 6 && b.Parent() != fn; k++ {
+		if !inlineAware || curProgram == nil {
+			return b
+		}
+		cs := singleSite(curProgram, b.Parent())
+		if cs == nil {
+			return b
+		}
+		b = cs.Block()
+	}
+	return b
 }
 
 // csvFieldsPerRecord finds the constant FieldsPerRecord configured on the reader whose Read is called.
@@ -357,7 +380,9 @@ func runC16(c *Ctx) {
 	for _, fn := range fns {
 		perFn := map[string]int{}
 		eachInstr(fn, func(i ssa.Instruction) {
-			kind, why, ok, isSite := dischargeSite(fn, i)
+			var kind, why string
+			var ok, isSite bool
+			withInline(func() { kind, why, ok, isSite = dischargeSite(fn, i) })
 			if !isSite {
 				return
 			}
@@ -518,10 +543,32 @@ func dischargeIndex(fn *ssa.Function, at ssa.Instruction, base, idx ssa.Value) (
 		return "", "", true, false
 	}
 	blk := at.Block()
+	// `e < len(s) && s[e]` with e = i+k, i ≥ -1 a search result and k ≥ 1 (so e ≥ 0)
+	if add, isAdd := idx.(*ssa.BinOp); isAdd && add.Op == token.ADD {
+		if k, isK := constInt(add.Y); isK && k >= 1 {
+			if call, isCall := add.X.(*ssa.Call); isCall && searchFuncs[callName(&call.Call)] {
+				for _, f := range factsAt(blk) {
+					bo, ok := f.Cond.(*ssa.BinOp)
+					if !ok || !f.Val || bo.Op != token.LSS || !lenValueOf(bo.Y, base) {
+						continue
+					}
+					if e, isE := bo.X.(*ssa.BinOp); isE && e.Op == token.ADD && e.X == add.X {
+						if k2, isK2 := constInt(e.Y); isK2 && k2 == k {
+							return "index", "i+k < len(s) tested, i a search result (≥ -1)", true, true
+						}
+					}
+				}
+			}
+		}
+	}
+	// s[i] with i the position a search in s returned, under the found test
+	if _, isAdd := idx.(*ssa.BinOp); !isAdd && searchBound(idx, base, blk) {
+		return "index", "position returned by a search in the same string, under its found test", true, true
+	}
 	// a csv record's field count is only known on the err == nil edge of the Read that produced it
-	if ex, isEx := base.(*ssa.Extract); isEx {
+	if ex, isEx := rootVal(base).(*ssa.Extract); isEx {
 		if call, isCall := ex.Tuple.(*ssa.Call); isCall && callName(&call.Call) == "(*encoding/csv.Reader).Read" {
-			if ifi := errNotNilIf(call, call); ifi == nil || !edgeDominates(ifi.Block(), 1, blk) {
+			if ifi := errNotNilIf(call, call); ifi == nil || !edgeDominates(ifi.Block(), 1, liftBlock(blk, call.Parent())) {
 				return "index", "a CSV record is indexed before its read error is checked", false, true
 			}
 		}
@@ -610,11 +657,80 @@ func lenValueOf(v ssa.Value, base ssa.Value) bool {
 	return ca != nil && ca == cb
 }
 
+// searchFuncs return a position in their first argument: -1 ≤ i ≤ len(s)-width, where width is
+// at least 1 (or len(sep) for a constant separator).
+var searchFuncs = map[string]bool{
+	"strings.Index": true, "strings.LastIndex": true, "strings.IndexByte": true, "strings.LastIndexByte": true,
+	"strings.IndexAny": true, "strings.LastIndexAny": true, "strings.IndexRune": true, "strings.IndexFunc": true, "strings.LastIndexFunc": true,
+	"bytes.Index": true, "bytes.LastIndex": true, "bytes.IndexByte": true, "bytes.LastIndexByte": true,
+	"bytes.IndexAny": true, "bytes.LastIndexAny": true, "bytes.IndexRune": true, "bytes.IndexFunc": true, "bytes.LastIndexFunc": true,
+}
+
+// searchBound: e is i+k (k ≥ 0 constant) where i is the result of a search in base; reports
+// whether 0 ≤ e ≤ len(base) holds at blk.
+func searchBound(e, base ssa.Value, blk *ssa.BasicBlock) bool {
+	k := int64(0)
+	i := e
+	if add, ok := e.(*ssa.BinOp); ok && add.Op == token.ADD {
+		if kk, isK := constInt(add.Y); isK && kk >= 0 {
+			i, k = add.X, kk
+		}
+	}
+	call, ok := i.(*ssa.Call)
+	if !ok || !searchFuncs[callName(&call.Call)] || len(call.Call.Args) < 2 {
+		return false
+	}
+	a := call.Call.Args[0]
+	if a != base && !(loadedCell(a) != nil && loadedCell(a) == loadedCell(base)) {
+		return false
+	}
+	width := int64(1)
+	if sep, isS := constString(call.Call.Args[1]); isS {
+		if strings.HasSuffix(callName(&call.Call), "Index") && !strings.Contains(callName(&call.Call), "Any") {
+			width = int64(len(sep))
+		}
+	}
+	if k > width {
+		return false
+	}
+	if k >= 1 && width >= 1 {
+		return true // i ≥ -1 always, so 0 ≤ i+k; and i+k ≤ len
+	}
+	// k == 0 needs the found test
+	for _, f := range factsAt(blk) {
+		bo, isBo := f.Cond.(*ssa.BinOp)
+		if !isBo || bo.X != i {
+			continue
+		}
+		c0, isC := constInt(bo.Y)
+		if !isC {
+			continue
+		}
+		switch {
+		case bo.Op == token.GEQ && c0 == 0 && f.Val, bo.Op == token.LSS && c0 == 0 && !f.Val,
+			bo.Op == token.NEQ && c0 == -1 && f.Val, bo.Op == token.EQL && c0 == -1 && !f.Val,
+			bo.Op == token.GTR && c0 == -1 && f.Val, bo.Op == token.GTR && c0 >= 0 && f.Val, bo.Op == token.GEQ && c0 > 0 && f.Val:
+			return true
+		}
+	}
+	return false
+}
+
 func dischargeSlice(fn *ssa.Function, x *ssa.Slice) (string, string, bool, bool) {
 	blk := x.Block()
 	r := lenOfAt(x.X, blk)
 	need := int64(0)
 	okShape := true
+	// s[:i+k], s[i+k:] with i the position found by a search in s
+	if x.Max == nil && (x.Low == nil) != (x.High == nil) {
+		e := x.Low
+		if e == nil {
+			e = x.High
+		}
+		if _, isK := constInt(e); !isK && searchBound(e, x.X, blk) {
+			return "slice", "bounded by the position a search in the same string returned", true, true
+		}
+	}
 	if x.Low != nil {
 		if k, isK := constInt(x.Low); isK {
 			if k > need {
@@ -819,8 +935,90 @@ func mapNonNil(fn *ssa.Function, m ssa.Value, b *ssa.BasicBlock) (string, bool) 
 
 var consumingCalls = map[string]bool{
 	"(*bufio.Reader).ReadBytes": true, "(*bufio.Reader).ReadString": true, "(*bufio.Scanner).Scan": true,
-	"(*lib.peekingScanner).Scan": true, "(*encoding/csv.Reader).Read": true, "(*encoding/gob.Decoder).Decode": true,
+	"(*encoding/csv.Reader).Read": true, "(*encoding/gob.Decoder).Decode": true,
 	"(lib.Decoder).Decode": true, "dynamic": false,
+}
+
+// c16ScannerSplit: the loop-progress rule trusts bufio.Scanner.Scan to consume input. That holds for
+// the standard split functions; a custom one must advance whenever it hands out a token.
+func c16ScannerSplit(c *Ctx) {
+	const rule = "every bufio.Scanner uses the default or a bufio.Scan* split function; a custom split function returns (0, nil, nil) to ask for more data, an error, or a token together with an advance of at least one byte (a zero advance with a non-nil token while no read error is pending makes Scan return true forever)"
+	for _, fn := range c.P.AllRepoFuncs() {
+		eachInstr(fn, func(i ssa.Instruction) {
+			call, ok := i.(*ssa.Call)
+			if !ok || callName(&call.Call) != "(*bufio.Scanner).Split" {
+				return
+			}
+			key := "scanner-split:" + shortFn(fn)
+			var sf *ssa.Function
+			switch v := call.Call.Args[1].(type) {
+			case *ssa.Function:
+				sf = v
+			case *ssa.MakeClosure:
+				sf, _ = v.Fn.(*ssa.Function)
+			case *ssa.ChangeType:
+				sf, _ = v.X.(*ssa.Function)
+			}
+			if sf == nil {
+				c.Undecided(key, rule, "the split function is not a statically known function", c.at(call))
+				return
+			}
+			if sf.Pkg != nil && sf.Pkg.Pkg.Path() == "bufio" {
+				c.Pass(key, rule, "standard split function "+sf.Name(), c.at(call))
+				return
+			}
+			if len(sf.Blocks) == 0 || len(sf.Params) != 2 {
+				c.Undecided(key, rule, "custom split function without a body", c.at(call))
+				return
+			}
+			data := sf.Params[0]
+			bad := ""
+			var badAt ssa.Instruction
+			eachInstr(sf, func(j ssa.Instruction) {
+				ret, isR := j.(*ssa.Return)
+				if !isR || len(ret.Results) != 3 || bad != "" {
+					return
+				}
+				adv, tok, err := ret.Results[0], ret.Results[1], ret.Results[2]
+				if !isNilConst(err) {
+					if _, isK := err.(*ssa.Const); !isK {
+						return // an error value ends the scan
+					}
+				}
+				if isNilConst(tok) {
+					return // asks for more data (or ends at EOF): the scanner reads, so there is progress
+				}
+				// token handed out: advance must be ≥ 1
+				blk := ret.Block()
+				ok := false
+				switch a := adv.(type) {
+				case *ssa.Const:
+					if k, isK := constInt(a); isK && k >= 1 {
+						ok = true
+					}
+				case *ssa.BinOp:
+					if k, isK := constInt(a.Y); a.Op == token.ADD && isK && k >= 1 {
+						if searchBound(a.X, data, blk) || isLenOf(a.X, data) {
+							ok = true
+						}
+					}
+				case *ssa.Call:
+					if isLenOf(a, data) && lenOfAt(data, blk).lo >= 1 {
+						ok = true
+					}
+				}
+				if !ok {
+					bad = "a token is returned with advance " + describeVal(adv) + ", which is not proven ≥ 1: with a zero advance and no pending read error Scan returns true forever without consuming input"
+					badAt = ret
+				}
+			})
+			if bad != "" {
+				c.Fail(key, rule, shortFn(sf)+": "+bad, c.at(badAt))
+			} else {
+				c.Pass(key, rule, "custom split function "+shortFn(sf)+" advances with every token", c.at(call))
+			}
+		})
+	}
 }
 
 func c16Loops(c *Ctx, fns []*ssa.Function) {
@@ -860,6 +1058,7 @@ func c16Loops(c *Ctx, fns []*ssa.Function) {
 	if n == 0 {
 		c.Undecided("loop-progress:scope", rule, "no loops found in parser code")
 	}
+	c16ScannerSplit(c)
 }
 
 func loopProgress(fn *ssa.Function, h *ssa.BasicBlock) (string, bool) {
@@ -886,6 +1085,22 @@ func loopProgress(fn *ssa.Function, h *ssa.BasicBlock) (string, bool) {
 		n := callName(ci.Common())
 		if consumingCalls[n] {
 			return true
+		}
+		// a repository wrapper around a consuming reader (the lookahead scanner's Scan)
+		if f := ci.Common().StaticCallee(); f != nil && f.Pkg == fn.Pkg && len(f.Blocks) > 0 {
+			wraps := false
+			if f.Signature.Results().Len() == 1 {
+				if b, isB := f.Signature.Results().At(0).Type().Underlying().(*types.Basic); isB && b.Kind() == types.Bool {
+					eachInstr(f, func(j ssa.Instruction) {
+						if cj, isC := j.(ssa.CallInstruction); isC && consumingCalls[callName(cj.Common())] {
+							wraps = true
+						}
+					})
+				}
+			}
+			if wraps {
+				return true
+			}
 		}
 		if strings.Contains(n, "jlexer.Lexer).") {
 			switch {
